@@ -20,24 +20,26 @@ CONSTANTS K,            \* services (= listener tokens) 1..K
           ForcedWaits,         \* forced stop waits like a graceful one
           LifoQueue,           \* connections are taken newest first
           DrainOnlyAtStop,     \* queued connections are released when the stop is received, not in the shutdown state
-          ErrKeepsPolling      \* a readiness pass goes on after a failed check: later failures are consumed, only the first is restarted
+          ErrKeepsPolling,     \* a readiness pass goes on after a failed check: later failures are consumed, only the first is restarted
+          MaxPerPoll,          \* 0 (design): a poll serves the whole queue; k > 0: at most k connections per poll, then Pending
+          Rewake               \* with MaxPerPoll > 0: the worker wakes itself before it returns Pending with connections left
 
 Svc == 1..K
 
-VARIABLES ws, status, rs, fs, rk, cq, sq, live, since, due, waiting, replies,
+VARIABLES ws, status, rs, fs, rk, cq, sq, live, since, due, waiting, replies, owed,
           calls, called, lastCalled, fifoOk, created, drained, nconn, nnr, ncp, nstops,     \* bookkeeping / ghosts
           pe, act                                                 \* events of the last poll, label
-vars == <<ws, status, rs, fs, rk, cq, sq, live, since, due, waiting, replies, calls, called, lastCalled, fifoOk,
+vars == <<ws, status, rs, fs, rk, cq, sq, live, since, due, waiting, replies, owed, calls, called, lastCalled, fifoOk,
           created, drained, nconn, nnr, ncp, nstops, pe, act>>
 \* state-based predicates read only variables of the view; predicates over the events of a poll (pe) and over the
 \* call history are action properties (evaluated by TLC on every generated transition, so the view cannot hide them)
-View == <<ws, status, rs, fs, rk, cq, sq, live, since, due, waiting, replies, created, drained, called, lastCalled,
+View == <<ws, status, rs, fs, rk, cq, sq, live, since, due, waiting, replies, owed, created, drained, called, lastCalled,
           fifoOk, nconn, nnr, ncp, nstops>>
 
 Init == /\ ws = "Unavailable" /\ status = [k \in Svc |-> "Unavailable"]
         /\ rs = [k \in Svc |-> <<>>] /\ fs = [k \in Svc |-> <<>>] /\ rk = 0
         /\ cq = <<>> /\ sq = <<>> /\ live = {} /\ since = 0 /\ due = FALSE
-        /\ waiting = FALSE /\ replies = <<>>
+        /\ waiting = FALSE /\ replies = <<>> /\ owed = TRUE
         /\ calls = <<>> /\ called = {} /\ lastCalled = 0 /\ fifoOk = TRUE /\ created = [k \in Svc |-> 0] /\ drained = {} /\ nconn = 0 /\ nnr = 0 /\ ncp = 0
         /\ nstops = 0 /\ pe = <<>> /\ act = [n |-> "Init"]
 
@@ -47,7 +49,7 @@ Init == /\ ws = "Unavailable" /\ status = [k \in Svc |-> "Unavailable"]
 Machine == [ws |-> ws, status |-> status, rs |-> rs, fs |-> fs, rk |-> rk, cq |-> cq, sq |-> sq, live |-> live,
             since |-> since, due |-> due, waiting |-> waiting, replies |-> replies, calls |-> calls,
             called |-> called, lastCalled |-> lastCalled, fifoOk |-> fifoOk,
-            created |-> created, drained |-> drained, ev |-> <<>>]
+            created |-> created, drained |-> drained, ev |-> <<>>, yielded |-> FALSE]
 
 Total(m) == Len(m.cq) + Cardinality(m.live)
 Ev(m, e) == [m EXCEPT !.ev = Append(@, e)]
@@ -97,12 +99,13 @@ HandleStop(m) ==
                   !.status = [k \in Svc |-> IF @[k] = "Available" THEN "Stopped" ELSE @[k]],
                   !.replies = Append(@, "false"), !.ws = "Done"]
 
-RECURSIVE PollTop(_), AvailLoop(_, _)
+RECURSIVE PollTop(_), AvailLoop(_, _, _)
 \* the Available loop: readiness pass, then one connection, again
-AvailLoop(m, first) ==
+AvailLoop(m, first, n) ==
   LET r == IF ReadyCheckOnce /\ ~first THEN <<m, "true", 0>> ELSE CheckFrom(m, 1, TRUE) IN
     CASE r[2] = "true" ->
            IF r[1].cq = <<>> THEN r[1]                                        \* Pending on the channel
+           ELSE IF MaxPerPoll > 0 /\ n >= MaxPerPoll THEN [r[1] EXCEPT !.yielded = TRUE]   \* variant: the batch is used up
            ELSE LET idx == IF LifoQueue THEN Len(r[1].cq) ELSE 1
                     c   == r[1].cq[idx]
                     rest == [j \in 1..(Len(r[1].cq) - 1) |-> IF j < idx THEN r[1].cq[j] ELSE r[1].cq[j + 1]]
@@ -110,7 +113,7 @@ AvailLoop(m, first) ==
                                             !.called = @ \cup {c[2]}, !.fifoOk = @ /\ c[2] > r[1].lastCalled,
                                             !.lastCalled = c[2]],
                               [t |-> "call", k |-> c[1], c |-> c[2]])
-                IN AvailLoop(m1, FALSE)
+                IN AvailLoop(m1, FALSE, n + 1)
       [] r[2] = "false" -> PollTop([r[1] EXCEPT !.ws = "Unavailable"])
       [] OTHER -> PollTop(Restart(r[1], r[3]))
 
@@ -139,7 +142,7 @@ PollTop(m0) ==
            ELSE IF m1.since >= Timeout /\ ~IgnoreTimeout
              THEN [Ev(m1, [t |-> "reply", v |-> "false"]) EXCEPT !.replies = Append(@, "false"), !.ws = "Done", !.waiting = FALSE]
            ELSE [m1 EXCEPT !.due = FALSE]                                      \* reset the timer: one more second
-    [] OTHER -> AvailLoop(m, TRUE)                                              \* "Available"
+    [] OTHER -> AvailLoop(m, TRUE, 0)                                              \* "Available"
 
 (* ------------------------------------------------------------------------------------------- *)
 (* actions                                                                                        *)
@@ -149,6 +152,7 @@ Poll ==
   /\ LET m == PollTop(Machine) IN
        /\ ws' = m.ws /\ status' = m.status /\ rs' = m.rs /\ fs' = m.fs /\ rk' = m.rk /\ cq' = m.cq /\ sq' = m.sq
        /\ live' = m.live /\ since' = m.since /\ due' = m.due /\ waiting' = m.waiting /\ replies' = m.replies
+       /\ owed' = (m.yielded /\ Rewake)      \* every source the poll waits on has its waker; nothing else is owed
        /\ calls' = m.calls /\ called' = m.called /\ lastCalled' = m.lastCalled /\ fifoOk' = m.fifoOk /\ created' = m.created /\ drained' = m.drained /\ pe' = m.ev
        /\ act' = [n |-> "Poll", ev |-> m.ev, ws |-> m.ws, replies |-> m.replies]
   /\ UNCHANGED <<nconn, nnr, ncp, nstops>>
@@ -158,38 +162,38 @@ PushAnswer(k, a) ==
   /\ nnr < MaxNonReady /\ nnr' = nnr + 1 /\ ws # "Done"
   /\ rs' = [rs EXCEPT ![k] = Append(@, a)]
   /\ act' = [n |-> "PushAnswer", k |-> k, a |-> a] /\ pe' = <<>>
-  /\ UNCHANGED <<ws, status, fs, rk, cq, sq, live, since, due, waiting, replies, calls, called, lastCalled, fifoOk, created, drained, nconn, ncp, nstops>>
+  /\ UNCHANGED <<ws, status, fs, rk, cq, sq, live, since, due, waiting, replies, owed, calls, called, lastCalled, fifoOk, created, drained, nconn, ncp, nstops>>
 \* a Ready answer placed explicitly (so that Pending / Ready / Pending scripts exist)
 PushReady(k) ==
   /\ rs[k] # <<>> /\ Len(rs[k]) < 3 /\ ws # "Done"
   /\ rs' = [rs EXCEPT ![k] = Append(@, 1)]
   /\ act' = [n |-> "PushAnswer", k |-> k, a |-> 1] /\ pe' = <<>>
-  /\ UNCHANGED <<ws, status, fs, rk, cq, sq, live, since, due, waiting, replies, calls, called, lastCalled, fifoOk, created, drained, nconn, nnr, ncp, nstops>>
+  /\ UNCHANGED <<ws, status, fs, rk, cq, sq, live, since, due, waiting, replies, owed, calls, called, lastCalled, fifoOk, created, drained, nconn, nnr, ncp, nstops>>
 PushCreatePending(k) ==
   /\ ncp < MaxCreatePend /\ ncp' = ncp + 1 /\ ws # "Done"
   /\ fs' = [fs EXCEPT ![k] = Append(@, 0)]
   /\ act' = [n |-> "PushCreatePending", k |-> k] /\ pe' = <<>>
-  /\ UNCHANGED <<ws, status, rs, rk, cq, sq, live, since, due, waiting, replies, calls, called, lastCalled, fifoOk, created, drained, nconn, nnr, nstops>>
+  /\ UNCHANGED <<ws, status, rs, rk, cq, sq, live, since, due, waiting, replies, owed, calls, called, lastCalled, fifoOk, created, drained, nconn, nnr, nstops>>
 PushConn(k) ==
   /\ nconn < MaxConns /\ nconn' = nconn + 1 /\ ws # "Done"
   /\ cq' = Append(cq, <<k, nconn + 1>>)
-  /\ act' = [n |-> "PushConn", k |-> k, c |-> nconn + 1] /\ pe' = <<>>
+  /\ act' = [n |-> "PushConn", k |-> k, c |-> nconn + 1] /\ pe' = <<>> /\ owed' = TRUE     \* the channel wakes its receiver
   /\ UNCHANGED <<ws, status, rs, fs, rk, sq, live, since, due, waiting, replies, calls, called, lastCalled, fifoOk, created, drained, nnr, ncp, nstops>>
 PushStop(g) ==
   /\ nstops < MaxStops /\ nstops' = nstops + 1 /\ ws # "Done"
   /\ sq' = Append(sq, g)
-  /\ act' = [n |-> "PushStop", g |-> g] /\ pe' = <<>>
+  /\ act' = [n |-> "PushStop", g |-> g] /\ pe' = <<>> /\ owed' = TRUE
   /\ UNCHANGED <<ws, status, rs, fs, rk, cq, live, since, due, waiting, replies, calls, called, lastCalled, fifoOk, created, drained, nconn, nnr, ncp>>
 Finish(c) ==
   /\ c \in live /\ live' = live \ {c}
   /\ act' = [n |-> "Finish", c |-> c] /\ pe' = <<>>
-  /\ UNCHANGED <<ws, status, rs, fs, rk, cq, sq, since, due, waiting, replies, calls, called, lastCalled, fifoOk, created, drained, nconn, nnr, ncp, nstops>>
+  /\ UNCHANGED <<ws, status, rs, fs, rk, cq, sq, since, due, waiting, replies, owed, calls, called, lastCalled, fifoOk, created, drained, nconn, nnr, ncp, nstops>>
 \* one second passes (only observable while a graceful shutdown is waiting: the 1 s timer fires, time since the
 \* start of the shutdown grows; capped at the timeout, beyond which nothing changes)
 Tick ==
   /\ ws = "Shutdown" /\ (~due \/ since < Timeout)
   /\ due' = TRUE /\ since' = (IF since < Timeout THEN since + 1 ELSE since)
-  /\ act' = [n |-> "Tick"] /\ pe' = <<>>
+  /\ act' = [n |-> "Tick"] /\ pe' = <<>> /\ owed' = TRUE
   /\ UNCHANGED <<ws, status, rs, fs, rk, cq, sq, live, waiting, replies, calls, called, lastCalled, fifoOk, created, drained, nconn, nnr, ncp, nstops>>
 
 Next == \/ Poll \/ Tick
@@ -225,7 +229,10 @@ C07_FailedIsRecreatedStep ==
      \/ \E q \in (p + 1)..Len(pe') : pe'[q].t = "create" /\ pe'[q].k = pe'[p].k
      \/ status'[pe'[p].k] \in {"Failed", "Restarting"}
 \* nothing queued is lost: after a poll that ends Available with every script exhausted the queue is empty
-C07_NoneLostStep == (act'.n = "Poll" /\ ws' = "Available" /\ \A k \in Svc : rs'[k] = <<>>) => cq' = <<>>
+\* (a poll that leaves connections queued although every service is ready must have re-armed its own wake-up)
+C07_NoneLostStep == (act'.n = "Poll" /\ ws' = "Available" /\ \A k \in Svc : rs'[k] = <<>>) => (cq' = <<>> \/ owed')
+\* a worker that is Available and has connections queued is owed a poll
+C07_QueuedMeansOwed == (ws = "Available" /\ cq # <<>>) => owed
 C07_AllAccounted == \A c \in 1..nconn : Cardinality({x \in {"q", "called", "drained"} :
                        \/ x = "q" /\ \E j \in 1..Len(cq) : cq[j][2] = c
                        \/ x = "called" /\ c \in called
